@@ -224,3 +224,32 @@ theorem wf_run {s : Schema2} {st : TStmts} (ha : alignedT s st = true) {d : TDb}
 
 end Table
 end EngineModel
+
+namespace EngineModel
+namespace Table
+
+/-- `add` leaves every other row as it was. -/
+theorem track_add_frame {s : Schema2} {st : TStmts} (ha : alignedT s st = true) {d d' : TDb}
+    {r : Row TField} {i : Int} (h : tAdd st d r = (d', .ok i)) (j : Int) (hj : j ≠ i) :
+    findRow .id d'.rows j = findRow .id d.rows j := by
+  simp only [alignedT, Bool.and_eq_true] at ha
+  obtain ⟨⟨⟨⟨⟨⟨_, hins⟩, _⟩, _⟩, _⟩, _⟩, _⟩ := ha
+  obtain ⟨_, l, he, hi⟩ := tAdd_ok h
+  obtain ⟨hi1, hd'⟩ := tInsert_ok hi
+  subst hi1 hd'
+  have hid : rowId .id (applyFix d.uuid (assign (setCol nullRaw .id (.int (d.seq + 1))) l)) = d.seq + 1 := by
+    have := rowId_written hins he d.uuid (setCol nullRaw .id (.int (d.seq + 1))) none
+    simp only [stampRow] at this
+    rw [this]; simp [rowId, setCol, readInt]
+  show findRow .id (d.rows ++ [_]) j = _
+  unfold findRow
+  rw [List.find?_append]
+  cases hf : d.rows.find? (fun r => rowId TCol.id r == j) with
+  | some x => rfl
+  | none =>
+    simp only [Option.none_or, List.find?_cons, List.find?_nil, hid]
+    have : (d.seq + 1 == j) = false := by simp; omega
+    rw [this]
+
+end Table
+end EngineModel
